@@ -27,6 +27,10 @@ THEOREMS = [
     "one_replica_steps",
     "cache_valid_after_step",
     "cache_valid_after_add",
+    "reachable_cacheValid",
+    "step_pairs_reachable",
+    "step_decision_count",
+    "parallel_step_eq_serial_reachable",
     "old_canSwap_accepts_different_graphs",
     "canSwap_same_shape",
 ]
